@@ -54,4 +54,21 @@ def run(ctx):
         ctx.classify(recs)
         ctx.sample(res[0])
         ctx.traces_validated += len(res)
+    # every way In can refuse a record: none of its exits keeps a pool event (7 refusals against a capacity of 2)
+    outr = os.path.join(ctx.scratch, "c05_refusals.json")
+    rc, txt = ctx.run_bin(ctx._core_bin, "^TestVerifC05Refusals$", env={"VERIF_OUT": outr}, timeout=1800)
+    if rc != 0 or not os.path.exists(outr):
+        crash = core.classify_crash(txt)
+        if crash is None:
+            raise vlib.Infra("C05 refusal harness failed rc=%s:\n%s" % (rc, txt[-3000:]))
+        ctx.classify([crash])
+    else:
+        rr = json.load(open(outr))
+        ctx.evaluations += len(rr)
+        exits = {r["exit"] for r in rr if r["refused"] > 0}
+        if not {"oversize", "wrong_cri", "below_stream_offset", "banned", "undecodable", "pass_event"} <= exits:
+            raise vlib.Infra("some refusal exits of In were not reached: %s" % sorted(exits))
+        ctx.extra["in_refusal_exits_exercised"] = sorted(exits)
+        ctx.classify([{"kind": "refused_record_keeps_pool_event", "pool": r["pool"], "exit": r["exit"], "inuse": r["inuse_end"], "reader_blocked": r["blocked"]}
+                      for r in rr if r["blocked"] or r["inuse_end"] != 0])
     _c01.run(ctx, pid=PID, families=(("pool", 150, 800), ("commit", 40, 200)))
